@@ -48,6 +48,12 @@ def cases(tier, seed):
             out.append({"kind": "random", "cls": "random:" + cls, "entry": cls, "idx": idx, "seed": seed,
                         "maxd": 8 if tier == "quick" else 20})
             idx += 1
+    # size ladder beyond plausible panel widths (8 / 16 / 32), square, tall and wide
+    for dims in ([(17, 17), (20, 20), (26, 19), (19, 26), (18, 18), (33, 33), (16, 16), (9, 40), (40, 9)] if tier == "quick" else
+                 [(a, b) for a in (9, 16, 17, 18, 24, 31, 32, 33, 34, 48, 49) for b in (9, 16, 17, 18, 33, 40)]):
+        for cls in ("gauss", "ties", "layout") if tier == "quick" else ("gauss", "ties", "layout", "int", "pure_imag"):
+            out.append({"kind": "random", "cls": "random:" + cls, "entry": cls, "idx": idx, "seed": seed, "maxd": 8, "dims": list(dims)})
+            idx += 1
     for k, sc in enumerate(("zero_column", "zero_matrix", "dependent_columns", "zero_1x1", "zero_row", "dependent_rows_wide", "zero_later_column")):
         for rep in range(3 if tier == "quick" else 12):
             out.append({"kind": "singular", "cls": "singular:" + sc, "sing": sc, "idx": rep, "seed": seed})
@@ -227,6 +233,9 @@ def _random(spec, ctx, R):
     rng = gen.rng_for(spec["seed"], "c07rand", spec["idx"])
     cls = spec["entry"]
     m, n = (int(x) for x in rng.integers(1, spec["maxd"] + 1, size=2))
+    if "dims" in spec:
+        m, n = spec["dims"]
+        ctx.hit("size:ladder")
     if cls == "gauss":
         A = refq.randq(rng, m, n)
     elif cls == "diag_dominant":
